@@ -342,4 +342,78 @@ INT_MUTANTS = [
 ]
 MUTANTS += INT_MUTANTS
 
+REGION_MUTANTS = [
+    dict(id="c03-drop-thread", props=["C03"], rule="R4", names="process_tpms",
+         edits=[(MARSHAL, """                path / PathNode(field.name),
+                count=count,
+                size_constraints=size_constraints,
+""", """                path / PathNode(field.name),
+                count=count,
+""")]),
+    dict(id="c03-drop-register", props=["C03"], rule="R1", names="tpm2b_size_constraint",
+         edits=[(MARSHAL, "    size_constraints.append(tpm2b_size_constraint)\n", "")]),
+    dict(id="c03-drop-close", props=["C03"], rule="R1", names="not closed",
+         edits=[(MARSHAL, """        values[buffer_field.name] = buffer_value
+        yield from tpm2b_size_constraint.assert_done(
+            all_size_constraints=size_constraints, abort_on_error=abort_on_error
+        )
+        return size_size + buffer_size, tpm_type(**values)""", """        values[buffer_field.name] = buffer_value
+        return size_size + buffer_size, tpm_type(**values)""")]),
+    dict(id="c03-arm-wrong-value", props=["C03"], rule="R1", names="size_max",
+         edits=[(MARSHAL, """            yield from parameter_size_constraint.set_constraint(
+                constraint_path=element_path,
+                size_max=element_value,""", """            yield from parameter_size_constraint.set_constraint(
+                constraint_path=element_path,
+                size_max=values["responseSize"],""")]),
+    dict(id="c03-close-late", props=["C03"], rule="R1", names="governed set",
+         edits=[(MARSHAL, 'if field.name == "parameters" and "parameterSize" in values:', 'if field.name == "authorizationArea" and "parameterSize" in values:')]),
+    dict(id="c03-charge-after-read", props=["C03"], rule="R2", names="charge before read",
+         edits=[(MARSHAL, """    if size_constraints is not None:
+        yield from size_constraints.bytes_parsed(path, size)
+
+    for _ in range(size):
+        byte = yield None
+        data.append(byte)
+""", """    for _ in range(size):
+        byte = yield None
+        data.append(byte)
+    if size_constraints is not None:
+        yield from size_constraints.bytes_parsed(path, size)
+""")]),
+    dict(id="c03-array-reads", props=["C03", "C04"], rule={"C03": "R3", "C04": "V3"}, names="process_array",
+         edits=[(MARSHAL, "    parent_path = path[:-1]\n    element_size = 0\n", "    parent_path = path[:-1]\n    _pad = yield None\n    element_size = 0\n")]),
+    dict(id="c03-root-registered-late", props=["C03"], rule="R1", names="command_size_constraint",
+         edits=[(MARSHAL, "    size_constraints = SizeConstraintList((command_size_constraint,))\n    parameter_encryption = None\n", "    size_constraints = SizeConstraintList()\n    parameter_encryption = None\n"),
+                (MARSHAL, """                other_size_constraints=size_constraints,
+                abort_on_error=abort_on_error,
+            )
+        if field.name == "authSize":""", """                other_size_constraints=size_constraints,
+                abort_on_error=abort_on_error,
+            )
+            size_constraints.append(command_size_constraint)
+        if field.name == "authSize":""")]),
+    dict(id="c03-auth-not-transferred", props=["C03"], rule="R1",
+         edits=[(MARSHAL, '        if field.name == "authorizationArea":\n            array_size_constraint = authorization_area_constraint\n', '        if field.name == "authorizationArea":\n            array_size_constraint = command_size_constraint\n')]),
+    dict(id="c03-bsa-no-close", props=["C03"], rule="R1", names="array_size_constraint",
+         edits=[(MARSHAL, """    yield from array_size_constraint.assert_done(
+        all_size_constraints=size_constraints, abort_on_error=abort_on_error
+    )
+    return array_size_constraint.size_already, elements""", """    return array_size_constraint.size_already, elements""")]),
+    dict(id="c03-anticipate-only", props=["C03"], rule="R5",
+         edits=[(CONSTR, "        if not anticipate_only:\n            self.size_already += size\n", "        if anticipate_only:\n            self.size_already += size\n")]),
+    dict(id="c03-list-stops-early", props=["C03"], rule="R5",
+         edits=[(CONSTR, "            except ConstraintObsoleteError:\n                self.remove(constraint)\n", "            except ConstraintObsoleteError:\n                self.remove(constraint)\n            break\n")]),
+    dict(id="c03-violator", props=["C03"], rule="R5", names="violator_path",
+         edits=[(CONSTR, """                raise SizeConstraintExceededError(
+                    self,
+                    violator_path=path,""", """                raise SizeConstraintExceededError(
+                    self,
+                    violator_path=self.constraint_path,""")]),
+    dict(id="c03-fresh-list-in-tpms", props=["C03"], rule="R4", names="rebinding",
+         edits=[(MARSHAL, "    size = 0\n    values = {}\n    element_size, element_value = None, None\n", "    size = 0\n    values = {}\n    size_constraints = SizeConstraintList()\n    element_size, element_value = None, None\n")]),
+    dict(id="c03-benign-reorder-stmts", props=["C03", "C01", "C07"], benign=True,
+         edits=[(MARSHAL, "    command_size_constraint = SizeConstraint()\n    authorization_area_constraint = SizeConstraint()\n", "    authorization_area_constraint = SizeConstraint()\n    command_size_constraint = SizeConstraint()\n")]),
+]
+MUTANTS += REGION_MUTANTS
+
 MUTANTS = [m for m in MUTANTS if not m.get("skip_if_missing")]
